@@ -245,6 +245,31 @@ func c11Exec(w *c11World, prog []c11Node) (flat []c11Flat, mustReject bool, ambi
 					flat = append(flat, c11Flat{Method: "POST", Path: prefix + n.Path, IDs: all})
 					w.f.Combo(n.Path, w.hs(common)...).Post(w.hs(own)...)
 				}
+			case "combo-across-scopes":
+				// one Combo, created inside a group, that is given further methods from a group nested below and
+				// after the group has been left: every method call is a registration at the point where it is made
+				common := ids(n.NH)
+				kh, hh := ids(1), ids(1)
+				g, p, u := ids(1), ids(1), ids(1)
+				cat := func(parts ...[]int) []int {
+					var out []int
+					for _, x := range parts {
+						out = append(out, x...)
+					}
+					return out
+				}
+				flat = append(flat, c11Flat{Method: "GET", Path: prefix + "/v" + n.Path, IDs: cat(outer, kh, common, g)})
+				if autoHead {
+					flat = append(flat, c11Flat{Method: "HEAD", Path: prefix + "/v" + n.Path, IDs: cat(outer, kh, common, g)})
+				}
+				flat = append(flat, c11Flat{Method: "POST", Path: prefix + "/v/g" + n.Path, IDs: cat(outer, kh, hh, common, p)},
+					c11Flat{Method: "PUT", Path: prefix + n.Path, IDs: cat(outer, common, u)})
+				var cb *flamego.ComboRoute
+				w.f.Group("/v", func() {
+					cb = w.f.Combo(n.Path, w.hs(common)...).Get(w.hs(g)...)
+					w.f.Group("/g", func() { cb.Post(w.hs(p)...) }, w.hs(hh)...)
+				}, w.hs(kh)...)
+				cb.Put(w.hs(u)...)
 			case "verbs", "combo-verbs":
 				// every method shortcut of the router / of one Combo, each with a handler of its own (HEAD is
 				// left to AutoHead and to combo-toggle-head)
@@ -552,6 +577,23 @@ func c11FlattenOnly(prog []c11Node) (flat []c11Flat, mustReject, amb bool) {
 				} else {
 					flat = append(flat, c11Flat{Method: "POST", Path: prefix + n.Path, IDs: all})
 				}
+			case "combo-across-scopes":
+				common := ids(n.NH)
+				kh, hh := ids(1), ids(1)
+				g, p, u := ids(1), ids(1), ids(1)
+				cat := func(parts ...[]int) []int {
+					var out []int
+					for _, x := range parts {
+						out = append(out, x...)
+					}
+					return out
+				}
+				flat = append(flat, c11Flat{Method: "GET", Path: prefix + "/v" + n.Path, IDs: cat(outer, kh, common, g)})
+				if autoHead {
+					flat = append(flat, c11Flat{Method: "HEAD", Path: prefix + "/v" + n.Path, IDs: cat(outer, kh, common, g)})
+				}
+				flat = append(flat, c11Flat{Method: "POST", Path: prefix + "/v/g" + n.Path, IDs: cat(outer, kh, hh, common, p)},
+					c11Flat{Method: "PUT", Path: prefix + n.Path, IDs: cat(outer, common, u)})
 			case "verbs", "combo-verbs":
 				common := []int{}
 				if n.Kind == "combo-verbs" {
@@ -690,6 +732,14 @@ func c11Programs(thorough bool) [][]c11Node {
 				[]c11Node{{Kind: "group", Path: "/g", NH: 2, Children: []c11Node{lf, {Kind: "get", Path: "/v", NH: 1}}}}, []c11Node{{Kind: "autohead-on"}, lf})
 		}
 	}
+	// a Combo given methods from other scopes than the one it was created in
+	for _, pth := range []string{"/a", "/{x}"} {
+		for _, nh := range []int{0, 1} {
+			lf := c11Node{Kind: "combo-across-scopes", Path: pth, NH: nh}
+			progs = append(progs, []c11Node{lf}, []c11Node{{Kind: "autohead-on"}, lf}, []c11Node{{Kind: "group", Path: "/g", NH: 1, Children: []c11Node{lf, {Kind: "get", Path: "/v", NH: 1}}}, {Kind: "post", Path: "/v", NH: 1}},
+				[]c11Node{{Kind: "group", Path: "/{p}", NH: 2, Children: []c11Node{{Kind: "group", Path: "/g", NH: 0, Children: []c11Node{lf}}}}})
+		}
+	}
 	// Routes with method names in lower and mixed case
 	for _, pth := range []string{"/a", "/{x}"} {
 		lf := c11Node{Kind: "routes-mixedcase", Path: pth, NH: 1}
@@ -817,7 +867,7 @@ func c11Run(r *core.Run) {
 	}
 	progs := c11Programs(r.Thorough())
 	paths := c11Paths(r.Thorough())
-	r.Rule = "engine E over registration programs: sequences of leaves {Get, Get(...).Headers(...), Post, Routes(comma list), Routes(several method strings), Any, the eight method shortcuts of the router and of one Combo, Combo.Get.Post (also with a spare-capacity caller slice, the same method twice, separate Combo calls for one path, GET then - AutoHead switched on in between - HEAD on one Combo, and a leaf whose refusal the program recovers from before it goes on), AutoHead on/off} inside 0..2 levels of Group(prefix, 0..2 handlers); each program is executed through the real grouping API on one Flame and as its flat single-method expansion (concatenated paths and handler-id lists) on a second Flame; every request (5 methods x all paths up to 2-3 segments over the program's literals) must run the same handler ids in the same order with the same parameters; non-trivial = request that runs at least one handler"
+	r.Rule = "engine E over registration programs: sequences of leaves {Get, Get(...).Headers(...), Post, Routes(comma list), Routes(several method strings), Any, the eight method shortcuts of the router and of one Combo, Combo.Get.Post (also with a spare-capacity caller slice, the same method twice, separate Combo calls for one path, GET then - AutoHead switched on in between - HEAD on one Combo, a leaf whose refusal the program recovers from before it goes on, and a Combo that is given methods from a nested group and after its group was left), AutoHead on/off} inside 0..2 levels of Group(prefix, 0..2 handlers); each program is executed through the real grouping API on one Flame and as its flat single-method expansion (concatenated paths and handler-id lists) on a second Flame; every request (5 methods x all paths up to 2-3 segments over the program's literals) must run the same handler ids in the same order with the same parameters; non-trivial = request that runs at least one handler"
 	r.Bounds["programs"] = len(progs)
 	r.Bounds["paths"] = len(paths)
 	r.Bounds["methods"] = c11Methods
